@@ -6,6 +6,7 @@ by PlanTrace. Where a verdict is known by construction it is returned (True: the
 
 Each entry: (name, parts, solvable) where parts is a list of program texts: more than one = read incrementally with a
 solve() in between."""
+import re
 import itertools
 import random
 
@@ -434,6 +435,13 @@ def exec_pressure_family():
             L = ['predicate A() : Interval { duration >= 6.0; }', 'predicate G() : Interval { duration >= 2.0; }', 'predicate H() : Interval { duration >= 2.0; }',
                  'goal a = new A();', '{ goal g = new G(); g.start >= %s; } [1.0] or { goal h = new H(); h.start >= %s; a.start >= %s; } [3.0]' % (f(gs), f(gs), f(late))]
             out.append(('fe_frozen_%d_%d' % (gs, late), ['\n'.join(L) + '\n'], True))
+    # the same with the END of an atom that is over: A is short and ends early (the client may have delayed its end once); when G
+    # fails later, the only alternative needs A to end much later - the executor must refuse or keep the end where it was
+    for gs in (7, 9):
+        for late in (12, 15):
+            L = ['predicate A() : Interval { duration >= 2.0; }', 'predicate G() : Interval { duration >= 2.0; }', 'predicate H() : Interval { duration >= 2.0; }',
+                 'goal a = new A();', '{ goal g = new G(); g.start >= %s; } [1.0] or { goal h = new H(); h.start >= %s; a.end >= %s; } [3.0]' % (f(gs), f(gs), f(late))]
+            out.append(('fe_endfrozen_%d_%d' % (gs, late), ['\n'.join(L) + '\n'], True))
     return out
 
 
@@ -511,6 +519,57 @@ def strict_tie_family():
             out.append(('fq_%s_%s_rule' % ('gt' if op == '>' else 'lt', shape), [head + '\npredicate P%s { %s }\ngoal g = new P(%s);\n' % (params, body, args)], True))
             out.append(('fq_%s_%s_then' % ('gt' if op == '>' else 'lt', shape), [head + '\n', '%s %s 5.0;\n' % (lhs, op)], True))
             out.append(('fq_%s_%s_disj' % ('gt' if op == '>' else 'lt', shape), [head + '\n{ %s %s 5.0; } or { %s %s 5.0; %s %s 6.0; }\n' % (lhs, op, lhs, op, lhs, nonstrict if op == '<' else '<=')], True))
+    return out
+
+
+def coef_sign_family():
+    """C01 / C02: linear constraints over the same variables whose expressions differ only in the sign (or only in the
+    magnitude) of one non-unit coefficient - 'x + 2*y' next to 'x - 2*y', 'x + y - 3*z' next to 'x + y + 3*z', '2*x - 0.5*y'
+    next to '2*x + 0.5*y' - so that expressions which must NOT share a slack variable or an assertion meet in one network.
+    Each program is built around a known point: the constraints are tight at it and one more bound leaves it as the only
+    solution, so both a wrong 'solution' and a wrong 'unsolvable' show. Contexts: top level, the rule of a goal, a disjunct, a
+    part read after a solve. (name, parts, True)"""
+    out = []
+    pt = {'x': 6, 'y': 1, 'z': 2}
+    def num(c):
+        return ('%d.0' % c) if c == int(c) else repr(float(c))
+    def expr(cs):               # cs: list of (coefficient, variable); the first term is written plain
+        t = []
+        for i, (c, v) in enumerate(cs):
+            a = abs(c)
+            term = v if a == 1 else '%s*%s' % (num(a), v)
+            t.append(('-' if c < 0 else '') + term if i == 0 else (' - ' if c < 0 else ' + ') + term)
+        return ''.join(t)
+    def val(cs):
+        return sum(c * pt[v] for c, v in cs)
+    shapes = [('s2', [(1, 'x'), (2, 'y')], 1), ('s3', [(1, 'x'), (3, 'y')], 1), ('sh', [(2, 'x'), (0.5, 'y')], 1),
+              ('t3', [(1, 'x'), (1, 'y'), (3, 'z')], 2), ('tm', [(1, 'x'), (2, 'y'), (1, 'z')], 1), ('n2', [(-1, 'x'), (2, 'y')], 1)]
+    for nm, cs, k in shapes:
+        neg = [(-c if i == k else c, v) for i, (c, v) in enumerate(cs)]
+        vs = sorted({v for c, v in cs})
+        decl = ' '.join('real %s;' % v for v in vs) + ' ' + ' '.join('%s >= -50.0; %s <= 50.0;' % (v, v) for v in vs)
+        fv = cs[k][1]
+        # plus-form bounded above, minus-form bounded below (both tight at the point), the flipped variable bounded below at
+        # its value, the others fixed: the point is the only solution
+        c1 = '%s <= %s;' % (expr(cs), num(val(cs)))
+        c2 = '%s >= %s;' % (expr(neg), num(val(neg)))
+        fix = ' '.join('%s == %s;' % (v, num(pt[v])) for v in vs if v != fv and v != cs[0][1]) + ' %s >= %s;' % (fv, num(pt[fv]))
+        params = '(' + ', '.join('real p%s' % v for v in vs) + ')'
+        args = ', '.join('p%s:%s' % (v, v) for v in vs)
+        body = c2
+        for v in vs:
+            body = re.sub(r'\b%s\b' % v, 'p' + v, body)
+        for order in (0, 1):
+            a, b = (c1, c2) if order == 0 else (c2, c1)
+            out.append(('fg_%s_top%d' % (nm, order), ['%s\n%s\n%s\n%s\n' % (decl, a, b, fix)], True))
+        out.append(('fg_%s_rule' % nm, ['%s\n%s\n%s\npredicate P%s { %s }\ngoal g = new P(%s);\n' % (decl, c1, fix, params, body, args)], True))
+        out.append(('fg_%s_then' % nm, ['%s\n%s\n%s\n' % (decl, c1, fix), '%s\n' % c2], True))
+        out.append(('fg_%s_disj' % nm, ['%s\n%s\n%s\n{ %s } or { %s %s <= -60.0; }\n' % (decl, c1, fix, c2, c2, cs[0][1])], True))
+        # equalities: the two forms as equations determine the pair
+        e1 = '%s == %s;' % (expr(cs), num(val(cs)))
+        e2 = '%s == %s;' % (expr(neg), num(val(neg)))
+        fixe = ' '.join('%s == %s;' % (v, num(pt[v])) for v in vs if v != fv and v != cs[0][1])
+        out.append(('fg_%s_eq' % nm, ['%s\n%s\n%s\n%s\n' % (decl, e1, e2, fixe)], True))
     return out
 
 
